@@ -496,7 +496,8 @@ def own_address_agreement(ctx):
             n += 1
             a = kwarg(c, 'random_address', 0)
             sent = norm(a) if a is not None else None
-            want = {norm(s_.value) for s_ in stores} or {'self.random_address'}
+            later = [s_ for s_ in stores if s_.lineno > c.lineno]  # stored once the controller has accepted it
+            want = {norm(s_.value) for s_ in later} or {'self.random_address'}
             R.check(sent in want and len(want) == 1, rule, f'bumble.device.Device.{name} | LE Set Random Address', f'sends `{sent}`, the value the device holds', f'{name} sends `{sent}` to the controller but the device holds `{sorted(want)}` afterwards: host and controller disagree on the own address - the peer sees one address, the device reports (and computes pairing values with) another', p.loc(c))
     R.check(n >= 2, rule, 'bumble.device.Device | LE Set Random Address commands', f'{n}', f'only {n} found')
 
